@@ -1,5 +1,6 @@
 import PydraModel.DriverUtil
 import PydraModel.Argv.Spec
+import PydraModel.Argv.ModelX
 /-
 JSON-lines driver of engine `Argv` (core part: C22, C23, C24).
 
@@ -10,6 +11,12 @@ JSON-lines driver of engine `Argv` (core part: C22, C23, C24).
        VALUE = null | SCALAR | [SCALAR..]
        SCALAR = {"s":STR} | {"i":INT} | {"f":STR,"z":B} | {"p":STR} | {"b":B}
      -> {"positions": {"ok":[INT..]}|{"err":TAG}, "argv": R, "cmdline": {"ok":STR}|{"err":TAG}, "spec":[STR..]}
+  {"op":"runx","exe":[STR..],"fields":[FIELDX..],"values":[VALUEX..],"append":[STR..],"xenv":{KEY:STR..},"cd":STR}
+       FIELDX = FIELD + {"readonly":B,"file_union":B,"allowed":[SCALAR..]|null,
+                         "formatter":{"args":[STR..],"pieces":[PIECE..]}|null,"template":{"tmpl":STR,"keep":B}|null}
+       PIECE  = {"lit":STR} | {"arg":NAT} | {"field_name":NAT} | {"input":[NAT,STR]}
+       VALUEX = VALUE | {"nothing":true}
+     -> {"argv": RX, "cmdline": RX}     RX = {"ok":..} | {"err":TAG}   (extended model, `Argv/ModelX.lean`)
 -/
 open Lean PydraModel PydraModel.Argv PydraModel.DriverUtil
 
@@ -77,6 +84,60 @@ def fieldOf (j : Json) : Except String Field := do
       | .error _ => throw "argstr-outside-modelled-fragment"
   return { name, isBool, isMulti, argstr, position, sep }
 
+def errXTag : ErrX → String
+  | .base e => errTag e
+  | .notAllowed => "notAllowed"
+  | .mandatory => "mandatory"
+  | .readonlyGiven => "readonlyGiven"
+  | .formatterArg => "formatterArg"
+  | .reformat => "reformat"
+  | .template _ => "template"
+  | .unmodelled w => "unmodelled:" ++ w
+
+def RX {α} (f : α → Json) : Except ErrX α → Json
+  | .ok v => Json.mkObj [("ok", f v)]
+  | .error e => Json.mkObj [("err", Json.str (errXTag e))]
+
+def valueXOf (j : Json) : Except String ValueX :=
+  match j.getObjVal? "nothing" with
+  | .ok _ => .ok .nothing
+  | .error _ => do return .v (← valueOf j)
+
+def pieceOf (j : Json) : Except String FPiece := do
+  match j.getObjVal? "lit" with
+  | .ok v => return .lit (← v.getStr?).toList
+  | .error _ =>
+  match j.getObjVal? "arg" with
+  | .ok v => return .arg (← v.getNat?)
+  | .error _ =>
+  match j.getObjVal? "field_name" with
+  | .ok v => return .fieldName (← v.getNat?)
+  | .error _ =>
+  match j.getObjVal? "input" with
+  | .ok v => do
+    let a ← v.getArr?
+    if a.size != 2 then throw "input piece" else
+    return .input (← a[0]!.getNat?) (← a[1]!.getStr?).toList
+  | .error _ => throw "bad-piece"
+
+def fieldXOf (j : Json) : Except String (FieldX × Option (List FPiece)) := do
+  let base ← fieldOf j
+  let readonly ← (← j.getObjVal? "readonly").getBool?
+  let fileUnion ← (← j.getObjVal? "file_union").getBool?
+  let allowed ← match ← optOf j "allowed" with
+    | none => pure none
+    | some v => do pure (some (← (← v.getArr?).toList.mapM scalarOf))
+  let (formatter, pieces) ← match ← optOf j "formatter" with
+    | none => pure (none, none)
+    | some v => do
+      let args ← strList v "args"
+      let ps ← (← getArr v "pieces").toList.mapM pieceOf
+      pure (some args, some ps)
+  let template ← match ← optOf j "template" with
+    | none => pure none
+    | some v => do pure (some (⟨(← getStr v "tmpl").toList, ← (← v.getObjVal? "keep").getBool?⟩ : TemplateX))
+  return (⟨base, { readonly, fileUnion, allowed, formatter, template }⟩, pieces)
+
 def handle (j : Json) : Json :=
   let r : Except String Json := do
     let op ← getStr j "op"
@@ -103,6 +164,23 @@ def handle (j : Json) : Json :=
         ("argv", R SL argv),
         ("cmdline", R S (argv.map cmdlineOf)),
         ("spec", SL (Spec.commandArgs exe fs vs app))]
+    | "runx" =>
+      let exe ← strList j "exe"
+      let app ← strList j "append"
+      let fps ← (← getArr j "fields").toList.mapM fieldXOf
+      let vs ← (← getArr j "values").toList.mapM valueXOf
+      if fps.length != vs.length then throw "fields/values length" else
+      let cd := (← getStr j "cd").toList
+      let xj ← j.getObjVal? "xenv"
+      let xenv : Env := fun n => match xj.getObjVal? (String.ofList n) with
+        | .ok (Json.str s) => some s.toList
+        | _ => none
+      let F : FormatterFn := fun name args =>
+        match fps.find? (fun fp => fp.1.base.name == name) with
+        | some (_, some pieces) => interpFormatter pieces args
+        | _ => "<no-formatter>".toList
+      let argv := runDefX F xenv cd exe (fps.map (·.1)) vs app
+      return Json.mkObj [("argv", RX SL argv), ("cmdline", RX S (argv.map cmdlineOf))]
     | _ => throw s!"bad-op {op}"
   match r with
   | .ok v => v
